@@ -93,10 +93,12 @@ PROPS = {
     ),
     'C01': dict(
         title='pack then unpack returns an equal message',
-        modules=['Pbc.Lemmas.Elem', 'Pbc.Props.C02'],
+        modules=['Pbc.Lemmas.Elem', 'Pbc.Props.C02', 'Pbc.Props.C01'],
         theorems=['Pbc.Lemmas.parseScalar_scalarBytes', 'Pbc.Lemmas.scanKey_keyBytes', 'Pbc.Lemmas.scanLen_lenPrefixed',
                   'Pbc.Lemmas.scalarBytes_scan_varint', 'Pbc.Lemmas.unzigzag32_zigzag32', 'Pbc.Lemmas.unzigzag64_zigzag64',
-                  'Pbc.Lemmas.loadLE_le32', 'Pbc.Lemmas.loadLE_le64', 'Pbc.Props.C02.packMsg_length'],
+                  'Pbc.Lemmas.loadLE_le32', 'Pbc.Lemmas.loadLE_le64', 'Pbc.Props.C02.packMsg_length',
+                  'Pbc.Props.C01.packMsg_recs', 'Pbc.Props.C01.elemRec_ok', 'Pbc.Props.C01.recsMsg_ok', 'Pbc.Props.C01.scanStep_rec',
+                  'Pbc.Props.C01.scanLoop_recs', 'Pbc.Props.C01.pack_scans'],
         refine=PACK_LEAVES + PARSE_LEAVES + TABLE_LEAVES,
         cases=[('msg', 300, 5000, []), ('leaf', 20, 200, [])],
         oracle='c01',
@@ -149,9 +151,10 @@ PROPS = {
     ),
     'C06': dict(
         title='whatever the parser accepts is well-formed, re-serialisable and stable',
-        modules=['Pbc.Props.C02', 'Pbc.Lemmas.Elem'],
+        modules=['Pbc.Props.C02', 'Pbc.Lemmas.Elem', 'Pbc.Props.C01'],
         theorems=['Pbc.Props.C02.packMsg_length', 'Pbc.Props.C02.chunksMsg_flatten', 'Pbc.Props.C02.chunks_total',
-                  'Pbc.Lemmas.scanKey_keyBytes', 'Pbc.Lemmas.scanLen_lenPrefixed'],
+                  'Pbc.Lemmas.scanKey_keyBytes', 'Pbc.Lemmas.scanLen_lenPrefixed',
+                  'Pbc.Props.C01.packMsg_recs', 'Pbc.Props.C01.pack_scans'],
         refine=PARSE_LEAVES + PACK_LEAVES + SIZE_LEAVES,
         cases=[('wire', 500, 8000, [])],
         oracle='c06',
